@@ -57,6 +57,23 @@ def run_sweep(root, args, timeout):
     rc, out = lsv.sh([rn] + [str(a) for a in args], timeout)
     m = re.search(r'checked (\d+) mismatches (\d+)', out)
     mism = [l for l in out.splitlines() if l.startswith('MISMATCH')]
+    if not m and not mism and args and args[0] in ('utf8', 'utf16'):
+        # the whole process died (a constructor returned a value that cannot be read or dropped): run again with every input
+        # logged before it is checked, then confirm the last ones one at a time
+        tf = os.path.join(root, '.cache', 'tmp', 'sweep_trace_%d.txt' % os.getpid())
+        os.makedirs(os.path.dirname(tf), exist_ok=True)
+        if os.path.exists(tf): os.remove(tf)
+        lsv.sh([rn] + [str(a) for a in args], timeout, env={'SWEEP_TRACE': tf})
+        last = open(tf).read().splitlines()[-8:] if os.path.exists(tf) else []
+        if os.path.exists(tf): os.remove(tf)
+        for l in reversed(last):
+            kind, h = l.split()
+            rc1, out1 = lsv.sh([rn, kind + 'one', h], 60)
+            m1 = re.search(r'checked (\d+) mismatches (\d+)', out1)
+            if not m1 or m1.group(2) != '0':
+                first = [x for x in out1.splitlines() if x.startswith('MISMATCH')]
+                mism = [first[0] if first else 'MISMATCH %s input %s: the process dies (%s)' % (kind, h, out1.strip().splitlines()[-1][:120] if out1.strip() else 'rc=%d' % rc1)]
+                break
     return (int(m.group(1)) if m else 0), (int(m.group(2)) if m else -1), mism, out
 
 def check_c14(root, pid, tier, seed, replay):
